@@ -35,6 +35,23 @@ for d in /verif/seeded/$glob/; do
   echo "$row" >> $out.tmp
   echo "$row"
 done
+# must-stay-green set: every cell must be "-"
+if [ "$glob" = "*" ]; then
+  for d in /verif/seeded/green/*/; do
+    [ -f "$d/patch.diff" ] || continue
+    name="green/$(basename $d)"
+    git -C $MX/repo checkout -q -- . ; git -C $MX/repo clean -fdq -e target -e Cargo.lock
+    if ! git -C $MX/repo apply "$d/patch.diff" 2>/dev/null; then echo "| $name | patch does not apply |||||" >> $out.tmp; continue; fi
+    row="| $name |"
+    for id in C02 C10 C12 C14 C15; do
+      o=$(cd $MX/verif && VERIF_DIR=$MX/verif ./check $id $tier 2>&1); c=$?
+      case $c in 0) cell="-";; 1) cell="**FALSE ALARM**";; *) cell="harness error (exit $c)";; esac
+      row="$row $cell |"
+    done
+    echo "$row" >> $out.tmp
+    echo "$row"
+  done
+fi
 mv $out.tmp $out
 git -C /repo worktree remove --force $MX/repo; rm -rf $MX
 echo "matrix written to $out"
